@@ -57,19 +57,19 @@ def bad_values(e, rng):
         return ["5", "None", "[1]", "1.5", "b'abc'", "True", "'y' * 65535", "'y' * 65536", "'y' * 70000"]
     if kind in "UEL":
         top = 1 << (8 * n)
-        out += [str(top), str(top + 1), "-1", str(1 << 64), str(-(1 << 63) - 1), "0.5", "3.0", "nan", "inf", "None", "'12'", "b'\\x01'", "[1, 2]",
+        out += [str(top), str(top + 1), "-1", str(1 << 64), str(-(1 << 63) - 1), "10 ** 4400", "-(10 ** 5000)", "0.5", "3.0", "nan", "inf", "None", "'12'", "b'\\x01'", "[1, 2]",
                 "True", "{}", "(1, 2)", str(top - 1)]
     elif kind == "I":
         half = 1 << (8 * n - 1)
-        out += [str(half), str(-half - 1), str(1 << 64), str(-(1 << 63) - 1), "0.5", "nan", "-inf", "None", "'x'", "b''", "[0]", "False", "set()",
+        out += [str(half), str(-half - 1), str(1 << 64), str(-(1 << 63) - 1), "10 ** 4400", "0.5", "nan", "-inf", "None", "'x'", "b''", "[0]", "False", "set()",
                 str(half - 1), str(-half)]
     elif kind in "XC":
         for ln in sorted({0, 1, n - 1, n + 1, n + 2}):
             if ln >= 0 and ln != n:
                 out.append(repr(bytes((0x41 + j) % 256 for j in range(ln))))
-        out += ["5", "1.5", "None", "[1, 2, 3]", repr("z" * n), repr("z" * (n + 1)), "True", "{}", repr(bytes(n))]
+        out += ["5", str(n), "1.5", "None", "[1, 2, 3]", repr([0] * n), repr("z" * n), repr("z" * (n + 1)), "True", "{}", repr(bytes(n))]
     elif kind == "R":
-        out += ["'1.0'", "None", "b'\\x00\\x00\\x00\\x00'", "[1.0]", "nan", "inf", "1e39" if n == 4 else "1e400", "True", "{}", "7"]
+        out += ["'1.0'", "None", "b'\\x00\\x00\\x00\\x00'", "[1.0]", "nan", "inf", "-inf", "-0.0", "1e39" if n == 4 else "1e400", "10 ** 4400", "True", "{}", "7"]
     elif kind == "A":
         out += ["[0] * %d" % (n - 1) if False else repr([0] * (n - 1)), repr([0] * (n + 1)), "[]", repr([256] + [0] * (n - 1)), repr([-1] + [0] * (n - 1)),
                 repr(["a"] + [0] * (n - 1)), "5", "None", repr(bytes(n)), "(0,)"]
